@@ -39,10 +39,10 @@ def run(ctx):
                 xs = [E.dbl(z) for z in c.split()[1:]]
                 bad = E.lookup_oracle(table, xs, i)
                 if bad:
-                    ctx.report("lookup:" + bad.split(":")[0], {"table": table, "x": xs, "x_bits": c.split()[1:], "impl": i, "model": m, "line": n}, "C04 oracle: " + bad)
+                    ctx.report("lookup:" + bad.split(":")[0], {"table": table, "x": xs, "x_bits": c.split()[1:], "impl": i, "model": m, "line": n, "table_line": tw, "case_line": c}, "C04 oracle: " + bad)
                 if i != m:
                     ctx.tie_ok = False
-                    if len(ctx.broken) < 5: ctx.broken.append({"kind": "correspondence searchCenters", "table": table, "x_bits": c.split()[1:], "impl": i, "model": m})
+                    if len(ctx.broken) < 5: ctx.broken.append({"kind": "correspondence searchCenters", "table": table, "x_bits": c.split()[1:], "impl": i, "model": m, "table_line": tw[:20000], "case_line": c})
                 if i.startswith("ok"): seen.add((tw, c))
                 if len(ctx.coverage["samples"]) < 4: ctx.coverage["samples"].append({"x": xs, "impl": i, "model": m, "orders": [d["order"] for d in table["dims"]], "nknots": [d["nknots"] for d in table["dims"]]})
             elif k == "B":
@@ -58,6 +58,10 @@ def run(ctx):
                         "uint32 index arithmetic does not wrap (nknots < 2^31)"]
 
 def replay(ctx, path):
-    r = json.load(open(path))
-    print(json.dumps(r, indent=1)[:3000])
-    run(ctx)
+    def handler(table, tw, c, i, m):
+        if c[:1] == "S":
+            xs = [E.dbl(z) for z in c.split()[1:]]
+            bad = E.lookup_oracle(table, xs, i)
+            if bad: ctx.report("lookup:" + bad.split(":")[0], {"table": table, "x": xs, "impl": i, "model": m, "table_line": tw, "case_line": c}, "C04 oracle: " + bad)
+            if i != m: ctx.tie_ok = False; ctx.broken.append({"kind": "correspondence searchCenters", "impl": i, "model": m, "case_line": c})
+    if not E.replay_case(ctx, path, handler): run(ctx)
